@@ -33,6 +33,12 @@ type InitialCase struct {
 	Seed    uint64 `json:"seed"`
 	Trail   int    `json:"trail"`    // bytes following the packet in the datagram (coalesced data)
 	LenVar  int    `json:"lenbytes"` // varint size of the Length field used by the independent encoder (2 = same as the repo)
+	// Type "initial": keys from KeyDCID. Types "handshake" / "0rtt": long header sealer/opener built by the hook
+	// constructors (as cryptoSetup.setReadKey/setWriteKey do) from Suite and Secret.
+	Type   string `json:"type"`
+	Suite  uint16 `json:"suite,omitempty"`
+	Secret B      `json:"secret,omitempty"`
+	Flips  []int  `json:"flips"` // bit positions (mod packet bits) flipped in the protected packet; each must be rejected
 }
 
 const maxPayload = 1452
@@ -56,7 +62,7 @@ func genPNPair(t *rapid.T, pnLen int) (int64, uint64) {
 	var largest int64 = -1
 	if rapid.IntRange(0, 3).Draw(t, "have-largest") != 0 {
 		bits := rapid.IntRange(0, 61).Draw(t, "largest-bits")
-		largest = rapid.Int64Range(0, int64(1)<<uint(bits)).Draw(t, "largest")
+		largest = rapid.Int64Range(int64(1)<<uint(bits)>>1, int64(1)<<uint(bits)).Draw(t, "largest")
 		if largest > int64(refcrypto.MaxPN)-hwin-1 {
 			largest = int64(refcrypto.MaxPN) - hwin - 1
 		}
@@ -112,6 +118,20 @@ func genInitial(t *rapid.T) InitialCase {
 	c.Seed = rapid.Uint64().Draw(t, "seed")
 	c.Trail = rapid.SampledFrom([]int{0, 0, 0, 1, 30, 200}).Draw(t, "trail")
 	c.LenVar = rapid.SampledFrom([]int{2, 2, 2, 0, 4, 8}).Draw(t, "lenbytes")
+	c.Type = rapid.SampledFrom([]string{"initial", "initial", "initial", "handshake", "0rtt"}).Draw(t, "type")
+	if c.Type != "initial" {
+		c.Token = B{}
+		c.Suite = rapid.SampledFrom(refcrypto.Suites).Draw(t, "suite")
+		n := refcrypto.HashLen(c.Suite)
+		c.Secret = B(rapid.SliceOfN(rapid.Byte(), n, n).Draw(t, "secret"))
+		if c.Type == "0rtt" {
+			c.Sender = "client"
+		}
+	}
+	nf := rapid.IntRange(0, 4).Draw(t, "nflips")
+	for i := 0; i < nf; i++ {
+		c.Flips = append(c.Flips, rapid.IntRange(0, 1<<20).Draw(t, "flip"))
+	}
 	return c
 }
 
@@ -134,11 +154,37 @@ func checkInitial(c InitialCase, u *vf.Unit) *vf.Verdict {
 	if c.Sender == "server" {
 		sendPers, rcvPers = rcvPers, sendPers
 	}
-	sealer, _ := handshake.NewInitialAEAD(keyCID, sendPers, pv)
-	ck, sk := refcrypto.InitialKeys(rv, c.KeyDCID)
-	sendKeys := ck
-	if c.Sender == "server" {
-		sendKeys = sk
+	var sealer handshake.LongHeaderSealer
+	var sendKeys *refcrypto.Keys
+	ptype, ltype, wantLvl := protocol.PacketTypeInitial, ltInitial, protocol.EncryptionInitial
+	switch c.Type {
+	case "handshake":
+		ptype, ltype, wantLvl = protocol.PacketTypeHandshake, ltHandshake, protocol.EncryptionHandshake
+	case "0rtt":
+		ptype, ltype, wantLvl = protocol.PacketType0RTT, ltZeroRTT, protocol.Encryption0RTT
+	}
+	if c.Type == "initial" || c.Type == "" {
+		sealer, _ = handshake.NewInitialAEAD(keyCID, sendPers, pv)
+		ck, sk := refcrypto.InitialKeys(rv, c.KeyDCID)
+		sendKeys = ck
+		if c.Sender == "server" {
+			sendKeys = sk
+		}
+	} else {
+		sealer = handshake.VerifNewLongHeaderSealer(c.Suite, c.Secret, pv)
+		sendKeys = refcrypto.DeriveKeys(c.Suite, rv, c.Secret)
+	}
+	newOpener := func() (handshake.LongHeaderOpener, *fakeCS) {
+		switch c.Type {
+		case "handshake":
+			o := handshake.VerifNewLongHeaderOpener(c.Suite, c.Secret, pv)
+			return o, &fakeCS{hs: o}
+		case "0rtt":
+			o := handshake.VerifNewLongHeaderOpener(c.Suite, c.Secret, pv)
+			return o, &fakeCS{zero: o}
+		}
+		_, o := handshake.NewInitialAEAD(keyCID, rcvPers, pv)
+		return o, &fakeCS{initial: o}
 	}
 	payload := expand(c.Seed, c.PayLen)
 	trail := expand(c.Seed+1, c.Trail)
@@ -147,7 +193,7 @@ func checkInitial(c InitialCase, u *vf.Unit) *vf.Verdict {
 	// --- direction 1: repo protects, refcrypto (and the repo's peer) open ---
 	ext := &wire.ExtendedHeader{
 		Header: wire.Header{
-			Type:             protocol.PacketTypeInitial,
+			Type:             ptype,
 			Version:          pv,
 			DestConnectionID: protocol.ParseConnectionID(c.DCID),
 			SrcConnectionID:  protocol.ParseConnectionID(c.SCID),
@@ -177,7 +223,7 @@ func checkInitial(c InitialCase, u *vf.Unit) *vf.Verdict {
 	if perr != nil {
 		return vf.Bad("C05/initial/header-mismatch", "independent parser rejects the repo's header: %v (%s)", perr, hx(pkt))
 	}
-	if pnOff != payloadOffset-c.PNLen || end != len(enc) || h.Version != rv || h.Type != ltInitial ||
+	if pnOff != payloadOffset-c.PNLen || end != len(enc) || h.Version != rv || h.Type != ltype ||
 		!eqBytes(h.DCID, c.DCID) || !eqBytes(h.SCID, c.SCID) || !eqBytes(h.Token, c.Token) || h.Length != uint64(length) {
 		return vf.Bad("C05/initial/header-mismatch", "header fields on the wire differ: parsed %+v pnOffset %d end %d, want pnOffset %d end %d", h, pnOff, end, payloadOffset-c.PNLen, len(enc))
 	}
@@ -194,7 +240,7 @@ func checkInitial(c InitialCase, u *vf.Unit) *vf.Verdict {
 
 	// the repo's own peer opens it through the real unpacker
 	open := func(p []byte, sig string) *vf.Verdict {
-		_, opener := handshake.NewInitialAEAD(keyCID, rcvPers, pv)
+		opener, cs := newOpener()
 		if err := primeLongOpener(opener, sendKeys, c.Largest); err != nil {
 			return vf.Bad("C05/initial/repo-cannot-open-ref-packet", "priming packet (pn %d) sealed by refcrypto rejected: %v", c.Largest, err)
 		}
@@ -202,7 +248,7 @@ func checkInitial(c InitialCase, u *vf.Unit) *vf.Verdict {
 		if _, err := opener.Open(nil, expand(c.Seed+8, 40), protocol.PacketNumber(c.PN+(1<<40))&protocol.PacketNumber(refcrypto.MaxPN), []byte{0xc0, 9}); err == nil {
 			return vf.Bad("C05/tamper/accepted-modified-packet", "Initial opener accepted 40 random bytes")
 		}
-		unp := quic.VerifNewPacketUnpacker(&fakeCS{initial: opener}, 0)
+		unp := quic.VerifNewPacketUnpacker(cs, 0)
 		hdr, data, rest, err := wire.ParsePacket(append([]byte{}, p...))
 		if err != nil {
 			return vf.Bad("C05/initial/header-mismatch", "wire.ParsePacket: %v", err)
@@ -212,9 +258,9 @@ func checkInitial(c InitialCase, u *vf.Unit) *vf.Verdict {
 		}
 		eh, lvl, pl, err := unp.UnpackLongHeader(hdr, data)
 		if err != nil {
-			return vf.Bad(sig, "packetUnpacker.UnpackLongHeader (version %d, %s Initial, pn %d len %d, largest %d, payload %d bytes): %v", c.V, c.Sender, c.PN, c.PNLen, c.Largest, c.PayLen, err)
+			return vf.Bad(sig, "packetUnpacker.UnpackLongHeader (version %d, %s %s, pn %d len %d, largest %d, payload %d bytes): %v", c.V, c.Sender, c.Type, c.PN, c.PNLen, c.Largest, c.PayLen, err)
 		}
-		if lvl != protocol.EncryptionInitial || eh.Type != protocol.PacketTypeInitial || eh.Version != pv ||
+		if lvl != wantLvl || eh.Type != ptype || eh.Version != pv ||
 			!eqBytes(eh.DestConnectionID.Bytes(), c.DCID) || !eqBytes(eh.SrcConnectionID.Bytes(), c.SCID) || !eqBytes(eh.Token, c.Token) ||
 			eh.PacketNumber != protocol.PacketNumber(c.PN) || int(eh.PacketNumberLen) != c.PNLen || int(eh.Length) != length {
 			return vf.Bad("C05/initial/header-mismatch", "unpacked header differs: type %v version %v dcid %x scid %x token %x pn %d len %d length %d", eh.Type, eh.Version,
@@ -230,7 +276,7 @@ func checkInitial(c InitialCase, u *vf.Unit) *vf.Verdict {
 	}
 
 	// --- direction 2: refcrypto protects (independent header encoder), the repo's unpacker opens ---
-	hdr2, pnOff2 := encodeLongHeader(longHdr{Version: rv, Type: ltInitial, DCID: c.DCID, SCID: c.SCID, Token: c.Token, Length: uint64(length)}, c.PNLen, c.PN, c.LenVar)
+	hdr2, pnOff2 := encodeLongHeader(longHdr{Version: rv, Type: ltype, DCID: c.DCID, SCID: c.SCID, Token: c.Token, Length: uint64(length)}, c.PNLen, c.PN, c.LenVar)
 	pkt2 := refcrypto.Protect(sendKeys, hdr2, pnOff2, c.PNLen, c.PN, payload)
 	if c.LenVar == 2 && !eqBytes(pkt2, enc) {
 		return vf.Bad("C05/initial/bytes-differ", "same header, keys and payload but different protected bytes:\nrepo %s\nref  %s", hx(enc), hx(pkt2))
@@ -240,8 +286,30 @@ func checkInitial(c InitialCase, u *vf.Unit) *vf.Verdict {
 		return v
 	}
 
+	// --- any single bit flipped inside the protected packet (header, connection IDs, token, length, protected
+	// bits, packet number, ciphertext, tag) makes the packet undecodable; it is never opened ---
+	for _, f := range c.Flips {
+		mut := append([]byte{}, pkt...)
+		bit := f % (8 * end)
+		mut[bit/8] ^= 1 << uint(bit%8)
+		opener, cs := newOpener()
+		if err := primeLongOpener(opener, sendKeys, c.Largest); err != nil {
+			return vf.Bad("C05/initial/repo-cannot-open-ref-packet", "priming failed: %v", err)
+		}
+		hdr, data, _, err := wire.ParsePacket(mut)
+		if err != nil {
+			u.Class("flip-unparseable")
+			continue
+		}
+		if eh, _, pl, err := quic.VerifNewPacketUnpacker(cs, 0).UnpackLongHeader(hdr, data); err == nil {
+			return vf.Bad("C05/tamper/accepted-modified-packet", "%s packet (version %d) with bit %d flipped was opened: pn %d payload %s (original pn %d)", c.Type, c.V, bit, eh.PacketNumber, hx(pl), c.PN)
+		}
+		u.Class("flip-rejected")
+	}
+
 	u.Class(fmt.Sprintf("v%d", c.V))
 	u.Class(c.Sender)
+	u.Class("type-" + c.Type)
 	u.Class(fmt.Sprintf("pnlen%d", c.PNLen))
 	u.Class(fmt.Sprintf("keydcid-len-%d", len(c.KeyDCID)))
 	if c.PayLen == max(1, 4-c.PNLen) {
